@@ -4,12 +4,14 @@ import (
 	"bytes"
 	"context"
 	"crypto/x509"
+	"encoding/pem"
 	"fmt"
 	"path"
 	"time"
 
 	"github.com/google/gce-tcb-verifier/cmd/output"
 	"github.com/google/gce-tcb-verifier/gcetcbendorsement"
+	gcmd "github.com/google/gce-tcb-verifier/gcetcbendorsement/cmd"
 	epb "github.com/google/gce-tcb-verifier/proto/endorsement"
 	"github.com/google/gce-tcb-verifier/verify"
 	spb "github.com/google/go-sev-guest/proto/sevsnp"
@@ -18,6 +20,7 @@ import (
 
 	"verifsim/attest"
 	"verifsim/core"
+	"verifsim/gcli"
 	"verifsim/images"
 	"verifsim/refv"
 	"verifsim/seams"
@@ -237,6 +240,24 @@ func c03Verify(r *core.Run, cfg worlda.Config, vcs *seams.SimVCS, e *issued, rot
 		if v := refv.Check(le.GetSerializedUefiGolden(), le.GetSignature(), []*x509.Certificate{e.root}, tc.t); !v.OK() {
 			r.Fail(class, "reference/"+tc.class+"/"+shapeKey(e.shape), "%s history %s: independent verifier rejects endorsement #%d at %s: %s", cfg, e.shape, e.id, tc.class, v.FirstFailure())
 		}
+	}
+	// the verify command (root certificate from a file, clock from the backend) accepts it too
+	if r.Chance(25, "cli-verify?") {
+		io := gcli.NewMemIO()
+		io.Files["e.binarypb"] = raw
+		io.Files["root.pem"] = pem.EncodeToMemory(&pem.Block{Type: "CERTIFICATE", Bytes: e.root.Raw})
+		if r.Bool("root-as-der") {
+			io.Files["root.pem"] = e.root.Raw
+		}
+		at := times[r.Intn(len(times), "cli-time")]
+		if err := gcli.Run(&gcmd.Backend{Now: at.t, IO: io}, "verify", "--root_cert", "root.pem", "e.binarypb"); err != nil {
+			class := "genuine-rejected"
+			if after {
+				class = "pre-rotation-rejected"
+			}
+			r.Fail(class, "cli-verify/"+at.class+"/"+shapeKey(e.shape), "%s history %s: `verify` rejects endorsement #%d at %s: %v", cfg, e.shape, e.id, at.class, err)
+		}
+		r.Probe("cli-verify")
 	}
 	if e.checked > 0 {
 		return // the content checks below do not depend on time or later history
